@@ -32,16 +32,23 @@ class CaseTimeout(Exception):
 
 
 class _Budget:
-	"""Per-call wall budget for real-code calls (SIGALRM; the harness runs them in the main thread)."""
+	"""Per-call wall budget for real-code calls (SIGALRM; the harness runs them in the main thread). After a few calls have
+	run into the budget (a real code that no longer terminates does so on most inputs) the budget of the remaining calls
+	shrinks, so that the whole check still ends within minutes; the count goes to the evidence notes."""
+
+	timeouts = 0
+	SHRINK_AFTER = 3
+	SHRUNK_S = 4.0
 
 	def __init__(self, seconds: float) -> None:
-		self.seconds = seconds
+		self.seconds = seconds if _Budget.timeouts < _Budget.SHRINK_AFTER else min(seconds, _Budget.SHRUNK_S)
 
 	def __enter__(self) -> '_Budget':
 		import signal
 		self._old = None
 		try:
 			def on_alarm(signum: int, frame: Any) -> None:
+				_Budget.timeouts += 1
 				raise CaseTimeout(f'real-code call exceeded {self.seconds}s')
 			self._old = signal.signal(signal.SIGALRM, on_alarm)
 			signal.setitimer(signal.ITIMER_REAL, self.seconds)
@@ -946,9 +953,17 @@ def search_certified(ctx: Ctx, real: Real) -> SearchResult:
 		if dl.over():
 			ctx.notes.append('deadline hit in search_certified: generation stopped early')
 			break
-		src, _ = gen_source(rng, 'subset', 1 + (i * 3) % 6)
+		src, _ = gen_source(rng, 'cut-token' if i % 4 == 3 else 'subset', 1 + (i * 3) % 6)
 		if len(src) > 500:
 			continue
+		# the tail of the source (C13.layout_tail_by_position): the white space after the last token replaced by another
+		# (none, blanks, a final newline, blank lines); sources cut after an arbitrary token included
+		ws = real.defs['py'].white_space
+		body = src.rstrip(ws) if isinstance(ws, str) else src
+		for _ in range(3):
+			tail2 = rng.choice(['', '', '\n', ' ', '\n\n', '  \n\t', '\t', '\n    \n'])
+			if body + tail2 != src:
+				probes.append(('tail', src, body + tail2, len(body), f'lay.tail\t{hx(body)}\t{hx(src[len(body):])}\t{hx(tail2)}'))
 		try:
 			toks = real.lexers['py'].parse_impl(src)
 		except Exception:  # noqa: BLE001 - the other searches report a lexer that raises on the subset
@@ -975,15 +990,23 @@ def search_certified(ctx: Ctx, real: Real) -> SearchResult:
 				probes.append((kind, src, src[:p_] + w + src[p_:], p_, f'lay.blank\t{hx(src)}\t{p_}\t{hx(w)}'))
 			elif kind == 'comment':
 				p_ = rng.choice(line_ends) if rng.random() < 0.8 else (rng.choice(ends) if ends else 0)
-				w, body = rng.choice([' ', '  ', '\t']), rng.choice([' c', '', ' x = (1', " it's"])
-				probes.append((kind, src, src[:p_] + w + '#' + body + src[p_:], p_, f'lay.comment\t{hx(src)}\t{p_}\t{hx(w)}\t{hx(body)}'))
+				w, body = rng.choice([' ', '  ', '\t', '', '']), rng.choice([' c', '', ' x = (1', " it's"])
+				if w:
+					probes.append((kind, src, src[:p_] + w + '#' + body + src[p_:], p_, f'lay.comment\t{hx(src)}\t{p_}\t{hx(w)}\t{hx(body)}'))
+				else:
+					# directly after the token (C13.layout_comment_tight_by_position)
+					probes.append(('tcomment', src, src[:p_] + '#' + body + src[p_:], p_, f'lay.tcomment\t{hx(src)}\t{p_}\t{hx(body)}'))
 			else:
 				p_ = rng.choice(line_ends)
 				ind, body = rng.choice(['', ' ', '    ', '\t\t', '         ']), rng.choice([' c', '', '!', ' "q'])
 				probes.append((kind, src, src[:p_] + '\n' + ind + '#' + body + src[p_:], p_, f'lay.cline\t{hx(src)}\t{p_}\t{hx(ind)}\t{hx(body)}'))
 	verdicts = common.lean_driver('lex', ['def\tpy', *[p[4] for p in probes]], timeout=ctx.scale(240, 900))[1:] if probes else []
 	seen: set[str] = set()
+	dl2 = _Deadline(ctx, 60, 600)
 	for (kind, src, src2, p_, _), v in zip(probes, verdicts):
+		if dl2.over():
+			hist['skipped:deadline'] += 1
+			continue
 		res.cases += 1
 		seen.add(src2)
 		if v not in ('true', 'false'):
@@ -1001,6 +1024,10 @@ def search_certified(ctx: Ctx, real: Real) -> SearchResult:
 					replay={'source': src, 'rewritten': src2, 'position': p_, 'real': same if same is not False else 'token sequences differ'}))
 		else:
 			hist[f"{kind}:refused/{'real-equal' if same is True else 'real-differs'}"] += 1
+	if dl2.hit:
+		ctx.notes.append(f"deadline hit in search_certified: {hist['skipped:deadline']} certified probes were not evaluated on the real code")
+	if probes and not any(k.endswith(':certified') for k in hist):
+		ctx.notes.append('search_certified is vacuous: the Lean checker certified none of the probes (a driver without the lay.* ops answers bad-op)')
 	res.distinct = len(seen)
 	res.histogram = dict(hist)
 	res.note = ('`certified` = the checker accepted and the theorem applies (real equality is then demanded); `refused/real-equal` measures what the theorems do not cover '
@@ -1084,6 +1111,11 @@ STATEMENTS = {
 	'shape_parse_symbol': 'the modelled parse_symbol equals the table-driven reading of its `for i in range(n)` window loop on the table translate/gen_lexer_shape.py extracts from tokenizer.py on every run (per round: window width, exit of the "window does not fit" guard and of the "not a combined symbol" guard — continue / break); every other statement of the function is compared with the text the model was written from',
 	'shape_handle_white_space': 'the modelled handle_white_space equals the interpretation of the generated branch table (end of input / deeper / shallower / same: index advance, assignment to context.nest, returned list — one INDENT per deeper line, nest - next_nest DEDENTs per shallower line, nest DEDENTs at the end of input)',
 	'shape_handle_symbol': 'the modelled handle_symbol equals the reading of the two generated bracket type lists (which TokenTypes raise / lower context.enclosure)',
+	'layout_chars_trailing': 'END TO END: white space appended after the last token (blanks, a final newline, blank lines) leaves Tokenizer.parse unchanged up to source maps; the last token may be any token but white space (a comment only before a newline) — in particular a combined symbol or a minus sign ending exactly at the end of the input',
+	'layout_tail_by_position': 'any two white space tails (possibly empty) after the tokens of a source give the same Tokenizer.parse whenever the decidable check tailOK passes for both (driver op lay.tail; examples decided in the kernel)',
+	'layout_closure_tail': 'LayoutEqT = equivalence generated by the steps of layout_closure and the replacement of the tail; equivalent sources have the same Tokenizer.parse up to source maps',
+	'pyDef_tailFree': 'the side condition of the tight-comment theorems decided for the generated definitions: `#` occurs in no look-ahead pattern of TokenDefinition() after the first character (for the grammar definition `//` does continue a `/`: there the rewrite is no layout change)',
+	'layout_chars_comment_tight / layout_comment_tight_by_position': 'END TO END: a comment inserted at a line end directly after a token, without a blank, leaves Tokenizer.parse unchanged up to source maps (last token not a minus sign / comment); positional form with the decidable checker commentTightOK (driver op lay.tcomment; examples decided in the kernel)',
 	'layout_blank_by_position / layout_comment_by_position / layout_comment_line_by_position': 'the layout rewrites described syntactically (insert w at offset pos): whenever the decidable checker passes (it computes the TokPrefix evidence by lexing the prefix token by token: whole, terminated tokens, the last one tolerating white space), Tokenizer.parse is unchanged up to source maps; examples decided in the kernel',
 }
 
@@ -1103,14 +1135,16 @@ def run(ctx: Ctx) -> int:
 		streams = [stream_lex(ctx, real), stream_real(ctx, real), stream_malformed(ctx, real)]
 	with ctx.timed('search'):
 		searches = [search_cpython(ctx, real), search_layout(ctx, real), search_token_layout(ctx, real), search_laws(ctx, real), search_history(ctx, real), search_certified(ctx, real)]
+	if _Budget.timeouts:
+		ctx.notes.append(f'{_Budget.timeouts} real-code calls exceeded their wall budget ({CASE_BUDGET_S}s, {_Budget.SHRUNK_S}s after the first {_Budget.SHRINK_AFTER}); each is reported as CaseTimeout where it happened')
 	return common.finish(ctx, proof, streams, searches,
 		translate_ok=translate_ok, translate_msg=translate_msg,
 		statements=STATEMENTS,
 		partial={
-			'proved': 'concat / progress / totality / span for parse_impl; INDENT/DEDENT accounting of _rebuild (and its falsity for over-indented blocks); closed form of post_filter; the layout sentence at token level in full and at character level end to end for blanks, blank lines, trailing comments, comment-only lines and the indentation unit (each rewrite step at a token boundary; composition by transitivity)',
-			'not_proved': 'newlines inserted INSIDE brackets are not a LayoutStep (they change norm and are only dropped by _rebuild); removal of blanks that are the only separation of two tokens is covered only in the direction "insert" (the equalities are symmetric, but the premise is stated on the source without the blanks); a comment directly after a token without a blank; layout changes inside brackets are covered (line breaks there are ordinary raw tokens) but not singled out; unterminated string literals are excluded by hypothesis; equality with CPython stays search-only',
+			'proved': 'concat / progress / totality / span for parse_impl; INDENT/DEDENT accounting of _rebuild (and its falsity for over-indented blocks); closed form of post_filter; the layout sentence at token level in full and at character level end to end for blanks, blank lines, trailing comments (with or without a blank in front), comment-only lines and the indentation unit, and for the white space after the last token incl. the final newline (each rewrite step at a token boundary; composition by transitivity); the control flow of parse_symbol / handle_white_space / handle_symbol as generated tables equal to the hand model',
+			'not_proved': 'newlines inserted INSIDE brackets are not a LayoutStep (they change norm and are only dropped by _rebuild); removal of blanks that are the only separation of two tokens is covered only in the direction "insert" (the equalities are symmetric, but the premise is stated on the source without the blanks); layout changes inside brackets are covered (line breaks there are ordinary raw tokens) but not singled out; unterminated string literals are excluded by hypothesis; equality with CPython stays search-only',
 			'correspondence_only': 'the model is the code (three streams); post filter regex semantics (re.split) for the one pattern TokenDefinition ships',
-			'search_only': 'equality with CPython tokenize on the supported subset; the character-level layout rewrites (comments, blank lines, spaces around operators)',
+			'search_only': 'equality with CPython tokenize on the supported subset; layout rewrites the theorems refuse (see not_proved) are covered by the metamorphic search only',
 		},
 		assumptions=[
 			'indentation widths are below 2^53 (int(spaces / unit) is then floor division)',
